@@ -7,7 +7,7 @@
         <lines> : `-` or `;`-joined  b (blank) | x (malformed) | id:v:<samples>:r | id:m:<chans>:<samples>:r
 
   <pres>/<posts>/<manifest ids>: comma separated naturals, `-` for the empty list.
-  The number of rows `compute_full` yields is taken from the STFT model (`Model/Stft.lean`, `full`).
+  The number of rows `compute_full` yields is `stftRows` = the length of `Model.Stft.full` (`C09.stftRows_eq_full`).
 
   answer (kaldi): `<outcome> <written>`            written items  id:rows:term
   answer (torch): `<outcome> <written> <manifest>` written items  id:rows:seed:term
@@ -26,8 +26,8 @@ def parseFrames (s : String) : Option (Nat → Nat) :=
   | [l, sh, c, k] => do
     let l ← l.toNat?; let sh ← sh.toNat?; let c ← parseBool c; let k ← parseBool k
     if l = 0 ∨ sh = 0 ∨ sh > l then none
-    let cfg : Stft.Cfg := { L := l, S := sh, centered := c, kaldi := k }
-    some fun n => (Stft.full cfg (List.replicate n ())).length
+    let _cfg : Stft.Cfg := { L := l, S := sh, centered := c, kaldi := k }
+    some (stftRows l sh)
   | _ => none
 
 def parseList {α} (f : String → Option α) (s : String) : Option (List α) :=
